@@ -401,6 +401,7 @@ impl Property for C03 {
         let mut g = Gen::new();
         let name = g.emit(&root);
         let expected = eval(&root, arg);
+        let mut expected_s = expected.to_string();
         let mut h = crate::rng::Fnv::default();
         shape(&root, &mut h);
         let run_path = rng.chance(1, 4);
@@ -413,6 +414,15 @@ impl Property for C03 {
             ops.push(ClientOp::Run { src, shake: rng.chance(1, 2), json: rng.chance(1, 2), wait: true });
         } else if rng.chance(1, 3) {
             family = "c03-repl-multiline";
+            // a server spawned on the first line waits for a function; the function is defined on a later
+            // line and sent on the last: code reaches the server's worker inside a value, after that
+            // worker was last given anything to start
+            let late = rng.chance(1, 2);
+            let (k, a_inc) = (rng.range(1, 40), rng.range(1, 40));
+            if late {
+                ops.push(ClientOp::Line { session: 0, src: format!("srvq = @#{{ f = !#(#'int -> 'int), {k} f }}, Ok") });
+                h.u64(0x1a7e);
+            }
             // definitions on earlier lines, body on the last
             let split = 1 + rng.usize(g.defs.len().max(1));
             let (a, b) = g.defs.split_at(split.min(g.defs.len()));
@@ -421,7 +431,17 @@ impl Property for C03 {
             if !b.is_empty() {
                 ops.push(ClientOp::Line { session: 0, src: b.join(", ") });
             }
-            ops.push(ClientOp::Line { session: 0, src: format!("p = {arg} @{name}, !p") });
+            if late {
+                ops.push(ClientOp::Line { session: 0, src: format!("incq = #'int {{ [~, {a_inc}] __integer_add__ }}") });
+                if rng.chance(1, 2) {
+                    ops.push(ClientOp::Line { session: 0, src: format!("&incq srvq, y = !srvq, p = {arg} @{name}, x = !p, [x, y]") });
+                } else {
+                    ops.push(ClientOp::Line { session: 0, src: format!("p = {arg} @{name}, x = !p, &incq srvq, y = !srvq, [x, y]") });
+                }
+                expected_s = format!("[{expected}, {}]", k + a_inc);
+            } else {
+                ops.push(ClientOp::Line { session: 0, src: format!("p = {arg} @{name}, !p") });
+            }
         } else {
             family = "c03-repl";
             ops.extend(noise_ops(rng));
@@ -435,7 +455,7 @@ impl Property for C03 {
             timing: has_sleep(&root),
             io: false,
             fixed_faults: Default::default(),
-            expect: serde_json::json!({ "value": expected.to_string() }),
+            expect: serde_json::json!({ "value": expected_s }),
             shape: h.0,
             est_len: 100,
             min_quantum: 0,
